@@ -1,7 +1,8 @@
 SPECIFICATION Spec
 CONSTANTS
-  Scenarios <- FileScenarios
-  DevSets <- OnlyDevSets
+  ScSeq <- FileScenarios
+  Listed <- FileDevs
+  Force <- ForceOn
 INVARIANT C17_OpenOnce
 INVARIANT C17_OpensCreated
 INVARIANT C17_Identity
@@ -11,4 +12,3 @@ INVARIANT C18_RepairedReload
 INVARIANT C27_Reject
 INVARIANT C27_Params
 INVARIANT C28_Location
-CHECK_DEADLOCK FALSE
